@@ -1348,6 +1348,10 @@ class Message(ABC):
                 current[value.key] = value.value
             elif isinstance(current, list) and not isinstance(value, list):
                 current.append(value)
+            elif isinstance(current, list) and current:
+                # A packed field may legally arrive in several chunks, or mixed
+                # with unpacked occurrences; all of them are concatenated.
+                current.extend(value)
             else:
                 setattr(self, field_name, value)
 
